@@ -539,3 +539,38 @@ func linkedAt(s *skiplist.Skiplist, p unsafe.Pointer, bound int) int {
 }
 
 func yieldNow() { runtime.Gosched() }
+
+// perturber returns a hook-point perturbation with a per-case focus (PCT-like): two
+// hook-point ids, chosen from the seed, get long delays (a goroutine arriving there is
+// held for 20-300 µs with probability 1/3), all other points only the light yielding
+// of yielder. This opens long windows at specific points instead of jittering
+// everything equally. Odd seeds keep the uniform behaviour.
+func perturber(seed int64, intensity int) func(id int) {
+	y := yielder(seed, intensity)
+	if intensity <= 0 || seed%2 == 1 {
+		return func(int) { y() }
+	}
+	h := uint64(seed) * 0x9E3779B97F4A7C15
+	// point ids: skiplist 1..21, nitro 101..119
+	pick := func(x uint64) int {
+		v := int(x % 40)
+		if v < 21 {
+			return v + 1
+		}
+		return 101 + (v - 21)
+	}
+	f1, f2 := pick(h>>8), pick(h>>24)
+	var ctr uint64
+	return func(id int) {
+		if id == f1 || id == f2 {
+			c := atomic.AddUint64(&ctr, 1)
+			z := (uint64(seed) ^ c) * 0xD6E8FEB86659FD93
+			z ^= z >> 32
+			if z%3 == 0 {
+				time.Sleep(time.Duration(20+z%280) * time.Microsecond)
+				return
+			}
+		}
+		y()
+	}
+}
